@@ -52,6 +52,23 @@ Proof.
 Qed.
 Print Assumptions C06_lineage_walk_terminates.
 
+(* what the walker returns: the first ancestor level (parents, grandparents, ...) that is empty
+   or consists only of individuals with a native generation - and conversely that level is what
+   it returns, given enough iterations *)
+Theorem C06_walker_returns_first_stopping_level : forall h m fuel r l,
+  parents_from_prev_generation h m fuel r = Some l ->
+  exists k, l = level h k (parents_of h r) /\ stops m l = true /\
+            forall j, j < k -> stops m (level h j (parents_of h r)) = false.
+Proof. intros h m fuel r l. exact (walk_is_first_stopping_level h m fuel (parents_of h r) l). Qed.
+Print Assumptions C06_walker_returns_first_stopping_level.
+
+Theorem C06_first_stopping_level_is_returned : forall h m k r fuel,
+  k < fuel -> stops m (level h k (parents_of h r)) = true ->
+  (forall j, j < k -> stops m (level h j (parents_of h r)) = false) ->
+  parents_from_prev_generation h m fuel r = Some (level h k (parents_of h r)).
+Proof. intros h m k r fuel. exact (level_walk h m k (parents_of h r) fuel). Qed.
+Print Assumptions C06_first_stopping_level_is_returned.
+
 (* lineage meets only individuals of the same or earlier generations, given how the loop creates
    and records individuals: (a) parents exist when the child is created, (b) an individual is
    recorded no earlier than its creation step, (c) a parent that is ever recorded is recorded by
